@@ -566,7 +566,7 @@ def parse_cache_answer(op, s):
         return dict(kind=k, res=tuple(int(x) for x in p[2:7]) + (p[7],), pf=p[8] == "1", cnt=_ints(p[9]))
     if k in ("CLE", "CSE", "CDD", "CDS", "CXD"):
         return dict(kind=k, cnt=_ints(p[2]))
-    if k == "CRD":
+    if k in ("CRD", "CRW"):
         return dict(kind=k, cnt=_ints(p[2]), items=parse_items(p[4:]))
     return dict(kind="ERR", what=s[:40])
 
@@ -584,7 +584,26 @@ def stored_form(kind, data):
         return _bz2.compress(data)
     if kind == "lz4":
         return c05.lz4_frame(data, [len(data)] if data else [], content_size=False)
+    if kind == "xz":
+        return c05.xz_variant(_r.Random(len(data)), data)[0]
+    if kind == "tar":
+        return _tar_of(data)[0]
     raise ValueError(kind)
+
+
+def _tar_of(data):
+    import random as _r, tarfile as _t
+    import c05
+    blob, placed, _ = c05.tar_tree(_r.Random(len(data)), [("m.log", data)], fmt=_t.USTAR_FORMAT, top="logs")
+    return blob, placed[0][0]
+
+
+def stored_member(kind, data):
+    """the member path inside the archive written by stored_form (kind tar), else None"""
+    return _tar_of(data)[1] if kind == "tar" else None
+
+
+CONTAINER_CODE = {"plain": 0, "gz": 1, "bz2": 1, "lz4": 1, "xz": 2, "tar": 3}
 
 
 def run_cache_cases(cases, scratch, timeout=900, per_cmd=15):
@@ -646,6 +665,8 @@ def run_cache_cases(cases, scratch, timeout=900, per_cmd=15):
             ans, cops = [], []
             try:
                 ask("K\t" + kind)
+                if kind == "tar":
+                    ask("M\t" + stored_member(kind, f))
                 ask("F\t" + stored_form(kind, f).hex())
                 if not ask("B\t%d" % bs).endswith("OK"):
                     raise RuntimeError("harness c02 could not open readers at blocksz %d" % bs)
@@ -707,11 +728,40 @@ def coq_cop(o):
         return "(%s %s)" % ("OLE" if k == "CLE" else "OSE", "true" if o[1] else "false")
     if k == "CXD":
         return "OXD"
+    if k == "CRW":
+        return "(ORD [])"
     return "(ORD [%s])" % "; ".join("true" if c == "1" else "false" for c in o[1] if c in "01")
+
+
+def window_spec(o):
+    """CRW argument "a,b,plan" -> (a | None, b | None, plan string)"""
+    a, b, plan = (o[1].split(",") + ["", ""])[:3]
+    return (None if a in ("-", "") else int(a)), (None if b in ("-", "") else int(b)), plan
+
+
+def py_win_scan(gs, a, b):
+    """Proofs/CachesFwdRunProofs.v win_scan: what a forward scan with the window a..b (inclusive) selects from the
+    messages gs = [(instant, lines)]: messages before a are skipped, the first message after b ends the scan"""
+    out = []
+    for t, ls in gs:
+        if a is not None and t < a:
+            continue
+        if b is not None and t > b:
+            break
+        out.append((t, ls))
+    return out
 
 
 def coq_iop(o, a):
     k = o[0]
+    if k == "CRW":
+        wa, wb, plan = window_spec(o)
+        oz = lambda v: "None" if v is None else "(Some %d%%Z)" % v
+        pl = "[%s]" % "; ".join("true" if ch == "1" else "false" for ch in plan if ch in "01")
+        if a["kind"] == "PANIC":
+            return "IRW %s %s %s None []" % (oz(wa), oz(wb), pl)
+        return "IRW %s %s %s (Some [%s]) %s" % (oz(wa), oz(wb), pl,
+                                                "; ".join('(%d, %d, %d, %d%%Z, "%s")' % it for it in a["items"]), _coq_list(a["cnt"]))
     if a["kind"] == "PANIC":
         return "IPANIC %s" % coq_cop(o)
     c = _coq_list(a["cnt"])
@@ -739,8 +789,8 @@ def coq_cache_cases(cases):
     rows = []
     for case in cases:
         bs, f, tab, oa = case[:4]
-        stream = "true" if (len(case) > 4 and case[4] != "plain") else "false"
-        rows.append('(%d, %s, "%s", %s, [%s])' % (bs, stream, f.hex(), coq_table(tab), ";\n   ".join(coq_iop(o, a) for o, a in oa)))
+        stream = CONTAINER_CODE[case[4] if len(case) > 4 else "plain"]
+        rows.append('(%d, %d, "%s", %s, [%s])' % (bs, stream, f.hex(), coq_table(tab), ";\n   ".join(coq_iop(o, a) for o, a in oa)))
     return COQ_HDR_C + "Definition cases : list ccase := [\n%s\n].\nEval vm_compute in (cache_bad cases).\n" % ";\n".join(rows)
 
 
@@ -782,7 +832,7 @@ def cache_spec_mismatches(f, table, ops, answers, check_sysline_until=None, judg
             bad.append((i, "error " + a.get("what", "")))
             continue
         if a["kind"] == "PANIC":
-            if not (dropped and k in ("CS", "CSB", "CRD")):
+            if not (dropped and k in ("CS", "CSB", "CRD", "CRW")):
                 bad.append((i, "panic"))
             continue
         judge_s = check_sysline_until is None or i < check_sysline_until
@@ -801,7 +851,13 @@ def cache_spec_mismatches(f, table, ops, answers, check_sysline_until=None, judg
             got = [(it[3], bytes.fromhex(it[4])) for it in a["items"]]
             if got != [(t, b"".join(ls)) for t, ls in gs]:
                 bad.append((i, "driver"))
-        if k in ("CDD", "CDS") or (k == "CRD" and "1" in o[1]):
+        elif k == "CRW" and judge_s:
+            wa, wb, _ = window_spec(o)
+            _, gs = py_groups(f, table)
+            got = [(it[3], bytes.fromhex(it[4])) for it in a["items"]]
+            if got != [(t, b"".join(ls)) for t, ls in py_win_scan(gs, wa, wb)]:
+                bad.append((i, "window driver"))
+        if k in ("CDD", "CDS") or (k == "CRD" and "1" in o[1]) or (k == "CRW" and "1" in window_spec(o)[2]):
             dropped = True
     return bad
 
@@ -825,7 +881,7 @@ def first_wild_sysline_in_block(ops, answers=None):
 
 
 def shrink_cache_case(bs, f, table, ops, scratch, wild_from, budget=120, kind="plain"):
-    jl = kind == "plain"
+    jl = kind in ("plain", "tar")
     """greedy removal of operations while some answer still contradicts the spec; returns (ops, answers)"""
     def failing(cand):
         ans, tabs, cops = run_cache_cases([(bs, f, table, cand, kind)], scratch)
